@@ -1,2 +1,5 @@
 import ZlModel.Basic
+import ZlModel.Key
 import ZlModel.Framework
+import ZlModel.Scope
+import ZlModel.Proto
